@@ -240,7 +240,7 @@ def s_axis_bounds(draw, s, kinds):
 def s_crop(draw, vias):
     via = draw(st.sampled_from(vias))
     classes = ("MaskedImage",) if via == "true_mask" else ("Image", "MaskedImage", "BooleanImage")
-    ndims = draw(st.sampled_from([(2,), (2,), (2,), (3,), (3,), (2, 3, 4)]))
+    ndims = draw(st.sampled_from([(2,), (2,), (2,), (3,), (3,), (4,), (2, 3, 4)]))
     img = draw(s_image(ndims=ndims, classes=classes, special=True))
     case = {"img": img, "via": via}
     case["constrain"] = draw(st.sampled_from([True, True, False, False, None]))
@@ -417,7 +417,8 @@ def c_crop(case, ctx):
         else:
             finite = np.isfinite(want.astype(float)) if want.dtype.kind == "f" else np.ones(want.shape, bool)
             if want.dtype.kind == "f" and np.array_equal(got[finite], want[finite]):
-                nan_only = np.array_equal(np.isnan(want) | (got == want), np.ones(want.shape, bool))
+                # exactly this: every NaN source pixel came back as 0 and every other pixel (inf included) is identical
+                nan_only = bool(np.all(np.isnan(want) | (got == want))) and bool(np.all(got[np.isnan(want)] == 0))
                 ctx.fail("crop.nonfinite_pixels_altered" if not nan_only else "crop.nan_pixels_zeroed",
                          lambda: "%s dtype=%s: %s" % (req, c["dtype"], short(got, want)))
             else:
